@@ -570,7 +570,7 @@ def print_items(items, indent, style, out, top=False, in_join=False):
                 s += _cmt(style, "line", it)
             out.append(s)
         elif k == "blank":
-            out.append("")
+            out.append(pad if style.get("blank_ws") else "")
         elif k == "comment":
             out.append(pad + "# " + it["text"])
         elif k == "stmt":
@@ -582,7 +582,7 @@ def print_items(items, indent, style, out, top=False, in_join=False):
                 out.append(pad + ">>")
             else:
                 out.append(pad + "@py:" + _cmt(style, "py"))
-                out.extend(it["lines"])
+                out.extend(((pad + "    ") if style.get("py_indent") else "") + l for l in it["lines"])
                 out.append(pad + "@endpy")
         elif k == "if":
             for i, (cond, body) in enumerate(it["branches"]):
@@ -628,6 +628,8 @@ def print_items(items, indent, style, out, top=False, in_join=False):
 def print_story(story, style=None):
     style = style or {}
     out = []
+    if style.get("top_comment"):
+        out += ["# a story", "", "# by nobody"]
     for p in story["passages"]:
         head = ":: " + p["name"]
         if p["params"]:
